@@ -3,7 +3,10 @@ package main
 import (
 	"fmt"
 	"os"
+	"sort"
 	"strings"
+
+	"github.com/bufbuild/protocompile/experimental/ast/printer"
 
 	"github.com/bufbuild/protocompile"
 	"github.com/bufbuild/protocompile/internal/zzverif/hx"
@@ -45,5 +48,57 @@ func init() {
 			}
 		}
 		h.Eval(1)
+	}
+}
+
+// FMTDBG lists, for every single-slot layout of the format skeleton, whether formatting is
+// idempotent, grouped by (previous token, next token, trivia).
+func init() {
+	props["FMTDBG"] = func(h *hx.H) {
+		h.Eval(1)
+		type key struct{ prev, next, triv string }
+		seen := map[string]int{}
+		example := map[string]string{}
+		forEachLayout(formatSkeleton, formatTrivia, 1, 0, func(text string, slots map[int]string, _ func(map[int]string) string) {
+			if len(slots) != 1 {
+				return
+			}
+			for i, v := range slots {
+				prev, next := "^", "$"
+				if i > 0 {
+					prev = formatSkeleton[i-1]
+				}
+				if i < len(formatSkeleton) {
+					next = formatSkeleton[i]
+				}
+				for _, ps := range []struct {
+					n string
+					f printer.Formatting
+				}{{"default", printer.Default()}, {"legacy", printer.Legacy()}} {
+					f1, ok := formatText(text, ps.f)
+					if !ok {
+						continue
+					}
+					f2, ok := formatText(f1, ps.f)
+					if ok && f1 == f2 {
+						continue
+					}
+					k := fmt.Sprintf("%-8s %-10q %-12q %q", ps.n, prev, next, v)
+					seen[k]++
+					if _, has := example[k]; !has {
+						example[k] = diffWindowStr(f1, f2)
+					}
+				}
+			}
+		})
+		var ks []string
+		for k := range seen {
+			ks = append(ks, k)
+		}
+		sort.Strings(ks)
+		for _, k := range ks {
+			fmt.Printf("%s x%d\n      %s\n", k, seen[k], example[k])
+		}
+		fmt.Println("classes:", len(ks))
 	}
 }
